@@ -115,7 +115,12 @@ func runR12_9(c *Ctx, r *R) {
 		k := 0
 		for _, ret := range returnsOf(fn) {
 			if !isNilConst(ret.Results[1]) {
-				continue
+				// `return w.endTable(list.start)`: the helper's tuple is forwarded, its bytes are judged
+				if tc := tailCallOf(ret); tc == nil || tc.Call.StaticCallee() == nil || tc.Call.StaticCallee().Pkg != fn.Pkg || !bytesLike(ret.Results[0].Type()) {
+					continue
+				} else if o := calleeObj(tc); o != nil && (o.Name() == "fail" || o.Name() == "failf") {
+					continue
+				}
 			}
 			k++
 			n++
@@ -169,6 +174,35 @@ func sliceFromEntryStart(v ssa.Value, entry ssa.Value, depth int) (bool, string)
 				for i, a := range call.Call.Args {
 					if i >= len(h.Params) {
 						break
+					}
+					// the helper is handed entry.start itself (endTable(list.start)): its successful returns must be
+					// slices of the buffer whose lower bound is that parameter
+					isStart := false
+					if reads, _ := structFieldReads(entry); true {
+						for _, rd := range reads {
+							if rd.Name == "start" && rd.Val == a {
+								isStart = true
+							}
+						}
+					}
+					if isStart {
+						allOK, nOK := true, 0
+						for _, hr := range returnsOf(h) {
+							if x.Index >= len(hr.Results) || isNilConst(hr.Results[x.Index]) {
+								continue
+							}
+							nOK++
+							sl, isSl := unspill(hr.Results[x.Index]).(*ssa.Slice)
+							for isSl && sl.Low == nil {
+								sl, isSl = sl.X.(*ssa.Slice)
+							}
+							if !isSl || sl.Low != ssa.Value(h.Params[i]) {
+								allOK = false
+							}
+						}
+						if allOK && nOK > 0 {
+							return true, ""
+						}
 					}
 					if a == entry {
 						allOK := true
